@@ -954,6 +954,20 @@ def stack(arrs, axis=0):
     return nd._wrap([x._d for x in arrs], arrs[0])
 
 
+def array_split(x, n, axis=0):
+    if axis != 0 or type(n) is not int:
+        raise Unsupported("numpy.array_split with sections / another axis")
+    x = asarray(x)
+    rows = list(x._d)
+    q, r = divmod(len(rows), n) if n else (0, 0)
+    out, k = [], 0
+    for j in range(n):
+        m = q + (1 if j < r else 0)
+        out.append(nd._wrap(rows[k:k + m], x))
+        k += m
+    return out
+
+
 def zeros_like(x, dtype=None):
     x = asarray(x)
     return nd._wrap(_map(lambda e: 0, x._d), x, dtype=dtype or x.dtype)
@@ -1012,7 +1026,7 @@ def make_numpy_namespace(real_numpy):
         "logical_and": _ufunc2(_sand), "logical_or": _ufunc2(_sor), "logical_not": _ufunc1(snot),
         "abs": _ufunc1(_sabs), "absolute": _ufunc1(_sabs), "sign": _ufunc1(_ssign), "negative": _ufunc1(lambda x: -x),
         "where": where, "concatenate": concatenate, "hstack": hstack, "vstack": vstack, "stack": stack,
-        "zeros_like": zeros_like, "ones_like": ones_like, "full": full, "count_nonzero": count_nonzero,
+        "array_split": array_split, "zeros_like": zeros_like, "ones_like": ones_like, "full": full, "count_nonzero": count_nonzero,
         "any": _red("any"), "all": _red("all"), "amax": amax, "amin": amin,
     })
     for name in dir(real_numpy):
